@@ -12,6 +12,9 @@ IMPORTS = "From NadaV.Gen Require Import GenScalar.\nFrom NadaV.Spec Require Imp
 AGREE = "(fun cs => indices_where (fun c : program * ioutcome => negb (outcome_agrees (run G (fst c)) (snd c))) cs 0%Z)"
 
 
+MODEL_ACCEPTS = "(fun cs => indices_where (fun c : program * ioutcome => match run G (fst c), snd c with Ok _, IOk _ => false | Ok _, _ => true | _, _ => false end) cs 0%Z)"
+
+
 def on_mir(pred):
     return (f"(fun cs => indices_where (fun c : program * ioutcome => match snd c with IOk m => negb ({pred} m) "
             f"| _ => false end) cs 0%Z)")
@@ -415,6 +418,34 @@ def text_variant_programs():
         line = [l for l in text.split("\n") if l.strip().startswith("one = ")][0]
         pr["text"] = text.replace(line, f"    one = {cls}({expr})")
         progs.append(pr)
+    # keyword-only parameters (eleventh seeding round): they are not parameters of the Nada function.  Given at a call,
+    # the keyword must not be dropped silently (rejecting is fine); left to their default in a map, the default is used
+    head = ("from nada_dsl import *\n\n\ndef nada_main():\n    party_P0 = Party(name='P0')\n"
+            "    x = SecretInteger(Input(name='x', party=party_P0))\n    y = SecretInteger(Input(name='y', party=party_P0))\n"
+            "    z = SecretInteger(Input(name='z', party=party_P0))\n")
+    kwdef = ("    def scale(v: SecretInteger, *, k: SecretInteger = y) -> SecretInteger:\n        r = v * k\n        return r\n"
+             "    f = nada_fn(scale)\n")
+
+    def scale_def(captured):
+        return {"k": "def", "f": "scale", "params": [("v", SI)], "ret": SI, "body": [{"k": "bin", "x": "r", "op": "OMul", "a": "v", "b": captured}],
+                "res": "r", "form": "decorator"}
+    ins = [targeted.inp("x", "x", SI), targeted.inp("y", "y", SI), targeted.inp("z", "z", SI)]
+    pr = targeted.prog(ins + [scale_def("z"), {"k": "call", "x": "r0", "f": "scale", "args": ["x"], "kwargs": []}], [("o", "P0", "r0")],
+                       ["text-variant", "keyword-only-argument-given-at-the-call"])
+    pr["text"] = head + kwdef + "    r0 = f(x, k=z)\n    return [Output(r0, 'o', party_P0)]\n"
+    progs.append(pr)
+    pr = targeted.prog(ins + [scale_def("y"), {"k": "call", "x": "r0", "f": "scale", "args": ["x"], "kwargs": []}], [("o", "P0", "r0")],
+                       ["text-variant", "keyword-only-parameter-left-to-its-default"])
+    pr["text"] = head + kwdef + "    r0 = f(x)\n    return [Output(r0, 'o', party_P0)]\n"
+    progs.append(pr)
+    pr = targeted.prog([targeted.inp("xs", "xs", ("arr", SI, 3)), targeted.inp("y", "y", SI), scale_def("y"),
+                        {"k": "map", "x": "m", "a": "xs", "f": "scale"}], [("o", "P0", "m")],
+                       ["text-variant", "keyword-only-parameter-in-a-mapped-function"])
+    pr["text"] = ("from nada_dsl import *\n\n\ndef nada_main():\n    party_P0 = Party(name='P0')\n"
+                  "    xs = Array(SecretInteger(Input(name='xs', party=party_P0)), size=3)\n    y = SecretInteger(Input(name='y', party=party_P0))\n"
+                  "    def scale(v: SecretInteger, *, k: SecretInteger = y) -> SecretInteger:\n        r = v * k\n        return r\n"
+                  "    m = xs.map(scale)\n    return [Output(m, 'o', party_P0)]\n")
+    progs.append(pr)
     return progs
 
 
@@ -488,7 +519,7 @@ def after_failed_compilation_case(ctx, preds, classify):
     ctx.cov["after_failed_compilation_case"] = True
 
 
-def generic_run(ctx, preds, classify, n_quick=300, n_thorough=6000, level="proof", second_compilation=False, after_failed=False, plain_left=False, text_variants=False, other_spellings=False, api_probe=False):
+def generic_run(ctx, preds, classify, n_quick=300, n_thorough=6000, level="proof", second_compilation=False, after_failed=False, plain_left=False, text_variants=False, other_spellings=False, api_probe=False, rejected_valid=None):
     """shared body of the program-level checks: extract, prove, validate preds on implementation MIRs, tie the model"""
     import targeted
     ok_x = vlib.step_extract(ctx)
@@ -523,6 +554,15 @@ def generic_run(ctx, preds, classify, n_quick=300, n_thorough=6000, level="proof
             if dis:
                 ctx.broken.append(dict(kind="correspondence", what="model and implementation disagree",
                                        detail=surface.to_python(progs[dis[0]])))
+                if rejected_valid:
+                    # among the disagreements: programs the trace / compile model compiles and the implementation rejects
+                    sub = [i for i in dis if "ok" not in results[i]][:40]
+                    o2, e2 = progrun.eval_over_cases(ctx, ctx.prop.lower() + "_rejected", IMPORTS, [progs[i] for i in sub], [results[i] for i in sub], [MODEL_ACCEPTS])
+                    for j in ([] if e2 else o2[MODEL_ACCEPTS])[:3]:
+                        i = sub[j]
+                        kw = rejected_valid(progs[i], results[i])
+                        if kw:
+                            vlib.report_failure(ctx, kw[0], kw[1], replay_payload(progs[i], results[i]))
     standard_cov(ctx, progs, results, len(tg))
     ctx.cov["disagreements_checked"] = len(progs)
     return vlib.finish(ctx, level=level)
